@@ -37,7 +37,8 @@ class Evidence:
     MAX_SAMPLES = 4
     MAX_SAMPLE_CHARS = 3000
 
-    def __init__(self):
+    def __init__(self, tier="quick"):
+        self.tier = tier
         self.evaluations = 0
         self.nontrivial: set[str] = set()
         self.distinct: set[str] = set()
